@@ -80,7 +80,7 @@ class OptTimes:
                 kt = c.keyterm(k)
                 if c.ceval(z3.Select(z3.Const(name + '.dom', AKB), kt), lambda r: r.random() < 0.7, bool):
                     if c.ceval(z3.Select(z3.Const(name + '.isnone', AKB), kt), lambda r: r.random() < 0.25, bool):
-                        self.m[k] = None
+                        self.m[k] = None if (getattr(c, 'rng', None) is None or c.rng.random() < 0.6) else pd.NaT     # (both spell 'no entry date')
                     else:
                         v = c.ceval(z3.Select(z3.Const(name + '.val', AKR), kt),
                                     lambda r: 1577836800 + r.randint(0, 40) * 21600 + r.choice([0, 52200, 75600, 75660]))
@@ -90,7 +90,7 @@ class OptTimes:
                             ts = ts.tz_convert(c.rng.choice(['UTC', 'UTC', 'America/New_York', 'Asia/Tokyo']))
                         self.m[k] = ts
 
-            dated = [k for k, v in self.m.items() if v is not None]
+            dated = [k for k, v in self.m.items() if v is not None and v is not pd.NaT]
             if getattr(c, 'rng', None) is not None and getattr(c, 'model', None) is None and len(dated) >= 2 and c.rng.random() < 0.3:
                 # two assets entering at the SAME instant (a timeline keyed by entry date would lose one of them)
                 self.m[dated[1]] = self.m[dated[0]].tz_convert(c.rng.choice(['UTC', 'America/New_York']))
@@ -103,7 +103,7 @@ class OptTimes:
     def isnone(self, k):
         if self.c.mode == 'sym':
             return z3.Select(self.m.isnone, liftk(k))
-        return self.m.get(k) is None
+        return self.m.get(k) is None or self.m.get(k) is __import__('pandas').NaT
 
     def date(self, k):
         if self.c.mode == 'sym':
@@ -114,7 +114,7 @@ class OptTimes:
         """k has an entry date and t >= it (inclusive) - from the C19 statement"""
         if self.c.mode == 'sym':
             return z3.And(self.present(k), z3.Not(self.isnone(k)), lift(t) >= lift(self.date(k)))
-        return k in self.m and self.m[k] is not None and t >= self.m[k]
+        return k in self.m and self.m[k] is not None and self.m[k] is not __import__('pandas').NaT and t >= self.m[k]
 
 
 UNIVF = z3.Function('UNIVERSE_AT', R, AKB)
